@@ -253,16 +253,28 @@ def _model_case(case, ctx):
         m = r.value
         st = spec.spike_templates
         sc = spec.clusters
-        for t in range(spec.n_templates + 1):
+        def scribble(v):
+            # the caller's own result array; asking again must give the right answer again
+            if isinstance(v, np.ndarray) and v.flags.writeable and v.size:
+                v[...] = 0
+                ctx.mon('returned_array_modified')
+        for t in list(range(spec.n_templates + 1)) * 2:
             rr = call(m.get_template_spikes, as_id(t, t))
+            if rr.ok:
+                exp_ = np.nonzero(st == t)[0]
+                if not same(rr.value, exp_, dtype=False):
+                    scribble(rr.value)
+                    continue
             if not rr.ok or same(rr.value, np.nonzero(st == t)[0], dtype=False):
                 ctx.violation('model_query', case, 'get_template_spikes(%d) -> %r' % (
                     t, rr.value if rr.ok else rr.exc), {'model': True}, tb=rr.tb)
-        for c in range(int(sc.max()) + 2):
+        for c in list(range(int(sc.max()) + 2)) * 2:
             rr = call(m.get_cluster_spikes, as_id(c, c + 1))
             if not rr.ok or same(rr.value, np.nonzero(sc == c)[0], dtype=False):
                 ctx.violation('model_query', case, 'get_cluster_spikes(%d) -> %r' % (
                     c, rr.value if rr.ok else rr.exc), {'model': True}, tb=rr.tb)
+            elif not np.shares_memory(rr.value, m.spike_clusters):
+                scribble(rr.value)
             rr = call(m.get_template_counts, as_id(c, c + 2))
             exp = np.bincount(st[sc == c].astype(np.int64), minlength=spec.n_templates)
             if not rr.ok or same(rr.value, exp, dtype=False):
